@@ -31,7 +31,9 @@ import contextlib
 import copy
 import dataclasses
 import datetime
+import json
 import operator
+import re
 import typing as t
 
 import pendulum
@@ -508,7 +510,12 @@ def strload(val: str | bytes | bytearray | memoryview) -> PythonValueT:
 @compat.lru_cache(maxsize=100_000)
 def _strload(val: str | bytes) -> PythonValueT:
     with contextlib.suppress(ValueError):
-        return compat.json.loads(val)
+        loaded = compat.json.loads(val)
+        # orjson reads an integer beyond 64 bits as a float:
+        #   the standard decoder keeps it exact.
+        if compat.json is not json and _MANY_DIGITS.search(decode(val)):
+            return json.loads(val)
+        return loaded
 
     decoded = decode(val)
     # Text which the parser chokes on isn't a literal - that's not an error.
@@ -519,6 +526,8 @@ def _strload(val: str | bytes) -> PythonValueT:
 
     return decoded
 
+
+_MANY_DIGITS = re.compile(r"\d{19}")
 
 PythonPrimitiveT: t.TypeAlias = "bool | int | float | str | None"
 """Type alias for serializable, non-container Python types."""
